@@ -9,6 +9,7 @@ CONSTANTS
   MaxN = 3
   MaxRedirects = 1
   Combos <- CombosB
+  HistKinds <- KindsQ
 INVARIANT ResultIsAsIs
 INVARIANT PushedOnce
 CHECK_DEADLOCK FALSE
